@@ -1,6 +1,7 @@
 package main
 
 import (
+	"regexp"
 	"fmt"
 	"go/constant"
 	"go/token"
@@ -531,7 +532,7 @@ func (fr *Frame) indexValue(v, iv Value, env *evalEnv) (Value, error) {
 		terms := make([]string, len(ls))
 		for j, l := range ls {
 			arr := env.readAt(elemComp(x.Elem)+l.suffix, sArr(sRef, sArr(sBV(64), l.sort)), x.Base)
-			if env.qdepth > 0 {
+			if env.qdepth > 0 && !mentionsBound(arr) {
 				arr = r.ctx.defineConst("qarr", sArr(sBV(64), l.sort), arr)
 			}
 			terms[j] = sel(arr, "(bvadd "+x.Off+" "+idx+")")
@@ -542,7 +543,7 @@ func (fr *Frame) indexValue(v, iv Value, env *evalEnv) (Value, error) {
 			return nil, err
 		}
 		arr := x.Arr
-		if env.qdepth > 0 && env.spec == nil {
+		if env.qdepth > 0 && env.spec == nil && !mentionsBound(arr) {
 			arr = r.ctx.defineConst("qarr", sArr(sBV(64), x.ElemSort), arr)
 		}
 		t := sel(arr, "(bvadd "+x.Off+" "+idx+")")
@@ -575,7 +576,7 @@ func (fr *Frame) indexValue(v, iv Value, env *evalEnv) (Value, error) {
 				return nil, fmt.Errorf("ghost array index sort mismatch")
 			}
 			at := x.T
-			if env.qdepth > 0 && env.spec == nil {
+			if env.qdepth > 0 && env.spec == nil && !mentionsBound(at) {
 				at = r.ctx.defineConst("qarr", x.Sort, at)
 			}
 			return scalarOfSort(sel(at, it), es), nil
@@ -1134,6 +1135,27 @@ func (fr *Frame) evalCall(x *ECall, env *evalEnv) (Value, error) {
 			return nil, err
 		}
 		return intV(env.readAt("G.calls", sArr(sRef, sBV(64)), ref)), nil
+	case "retof":
+		// retof(f, k): the k-th result of the latest call of the package function f made by this function
+		id, ok := x.Args[0].(*EIdent)
+		if !ok {
+			return nil, fmt.Errorf("retof: first argument must name a function")
+		}
+		ki, ok := x.Args[1].(*EInt)
+		if !ok {
+			return nil, fmt.Errorf("retof: result index must be a literal")
+		}
+		lv, ok := fr.lastRet["fn:"+id.Name]
+		if !ok {
+			return nil, fmt.Errorf("retof: no call of %s has been executed yet", id.Name)
+		}
+		if tv, ok := lv.(*TupleV); ok {
+			if int(ki.V) >= len(tv.E) {
+				return nil, fmt.Errorf("retof: no result %d", ki.V)
+			}
+			return tv.E[ki.V], nil
+		}
+		return lv, nil
 	case "ret":
 		// ret(f, k): the k-th result of the latest call made through the function value f
 		// (unconstrained on paths that never made one)
@@ -1848,3 +1870,9 @@ var opToken = map[string]token.Token{
 
 var _ = constant.MakeBool
 var _ = math.Abs
+
+var boundVarRe = regexp.MustCompile(`![q][0-9]+`)
+
+// mentionsBound: the term contains a quantifier-bound variable (named x!qN), so it cannot be
+// given a top-level name.
+func mentionsBound(t string) bool { return boundVarRe.MatchString(t) }
